@@ -35,6 +35,7 @@ func TestC17(t *testing.T) {
 		stakingSteps := 0
 		sendsToExisting := 0
 		recordedNonVesting := 0
+		otherDenomSeeds := 0
 		var recordedAbsent []sdk.AccAddress // recorded in the genesis file although no account exists there (yet)
 		// freshOrRecorded picks the recipient of a send / split: a never used address or, sometimes, an
 		// address the genesis file already records although it has no account - the operation's own
@@ -86,7 +87,18 @@ func TestC17(t *testing.T) {
 		}
 		for i := 0; i < nSeed; i++ {
 			addr := v.NextFresh()
-			makeCVA(v, addr, sdk.NewCoins(sdk.NewInt64Coin(Denom, int64(rapid.IntRange(1000, 1_000_000).Draw(t, fmt.Sprintf("seed%d_ov", i))))), nowS-100, nowS+int64(rapid.IntRange(1000, 10_000_000).Draw(t, fmt.Sprintf("seed%d_len", i))), sdk.NewCoins(sdk.NewInt64Coin(Denom, 500_000)))
+			ovSeed := sdk.NewCoins(sdk.NewInt64Coin(Denom, int64(rapid.IntRange(1000, 1_000_000).Draw(t, fmt.Sprintf("seed%d_ov", i)))))
+			switch rapid.IntRange(0, 5).Draw(t, fmt.Sprintf("seed%d_denoms", i)) {
+			case 0:
+				// the account also vests denominations that sort before and after the vesting denomination
+				ovSeed = ovSeed.Add(sdk.NewInt64Coin("aa1", 777_000), sdk.NewInt64Coin("zz1", 333_000))
+				otherDenomSeeds++
+			case 1:
+				// ... or only such denominations (it holds the vesting denomination as free coins)
+				ovSeed = sdk.NewCoins(sdk.NewInt64Coin("aa1", 777_000), sdk.NewInt64Coin("zz1", 333_000))
+				otherDenomSeeds++
+			}
+			makeCVA(v, addr, ovSeed, nowS-100, nowS+int64(rapid.IntRange(1000, 10_000_000).Draw(t, fmt.Sprintf("seed%d_len", i))), sdk.NewCoins(sdk.NewInt64Coin(Denom, 500_000)))
 			switch rapid.IntRange(0, 2).Draw(t, fmt.Sprintf("seed%d_kind", i)) {
 			case 0:
 				k.AppendVestingAccountTrace(v.Ctx, vestingtypes.VestingAccountTrace{Address: addr.String(), Genesis: true})
@@ -370,6 +382,9 @@ func TestC17(t *testing.T) {
 		}
 		if sentToRecorded > 0 {
 			cl = append(cl, "recipient_already_recorded_in_genesis")
+		}
+		if otherDenomSeeds > 0 {
+			cl = append(cl, "recorded_account_vesting_other_denominations")
 		}
 		if recordedNonVesting > 0 {
 			cl = append(cl, "recorded_address_that_is_no_continuous_vesting_account")
